@@ -167,13 +167,22 @@ fn signature(e: &ExecutionError) -> Option<i64> {
     }
 }
 
-const CONTEXTS: [(&str, &str, &str); 6] = [
+const CONTEXTS: [(&str, &str, &str); 15] = [
     ("bare", "", ""),
     ("all", "[1].all(x, ", ")"),
     ("exists", "[0, 1].exists(x, ", ")"),
     ("map", "[1].map(x, ", ")"),
     ("filter", "[1].filter(x, ", ")"),
     ("exists_one", "[1, 2].exists_one(x, ", ")"),
+    ("map3-filter", "[1].map(x, ", ", x)"),
+    ("map3-transform", "[1].map(x, true, ", ")"),
+    ("nested-macro", "[1].map(y, [2].all(x, ", "))"),
+    ("list-element", "[", ", 1][0]"),
+    ("map-value", "{'k': ", "}.k"),
+    ("call-argument", "string(", " ? 1 : 2)"),
+    ("negated", "!(", ")"),
+    ("compared", "(", ") == true"),
+    ("conditional-branch", "true ? (", ") : false"),
 ];
 
 pub fn run(run: &mut Run) {
